@@ -1457,10 +1457,8 @@ func genC06(rec *lib.Rec, r *lib.Rng, thorough bool) {
 	n /= Shards
 	for i := 0; i < n; i++ {
 		rec.Op("M", "rpc script "+strconv.Itoa(r.Pick(1, 1, 1, 0))+" "+inboundScript(r, 3+r.Intn(14)), true)
-		if i%2 == 0 {
-			rec.Op("S", "rpc check "+strconv.Itoa(r.Pick(1, 1, 0))+" "+mixedScript(r, 4+r.Intn(20), false, false), true)
-		}
 	}
+	genRPCCheck(rec, r, n/2, false, false)
 }
 
 // ---- oracles over a whole script (S stream): "rpc check <boot> <script>" ----
@@ -1604,7 +1602,7 @@ func rpcOracles(trace string) []string {
 				}
 			}
 		}
-		if strings.HasPrefix(op, "lC") || strings.HasPrefix(op, "lP") {
+		if strings.HasPrefix(op, "lC") || strings.HasPrefix(op, "lP") || strings.HasPrefix(op, "lA") || strings.HasPrefix(op, "lS") || strings.HasPrefix(op, "lQ") {
 			if strings.HasPrefix(res, "c") {
 				n, _ := strconv.Atoi(res[1:])
 				sentOrder["t"+strconv.Itoa(n+1000)] = pos
